@@ -3,28 +3,50 @@ CHECK = {
     "harness": "h-c14",
     "translators": ["c14_consts"],
     "level": "proof",
-    "rule": "one evaluation = one request line (a query grouping, a multi_open run, a multi_prepare run with its verdict); "
-            "non-trivial when the query list has more than one query / always for prove and verify; "
-            "distinctness by hash of the request line",
+    "rule": "one evaluation = one request line (a query grouping, a multi_open run, a multi_prepare run with its verdict, "
+            "the intermediate scalars of a multi_prepare run); non-trivial when the query list has more than one query / "
+            "always for prove, verify and vtrace; distinctness by hash of the request line",
     "explanation": "Lean theorems over the executable model of construct_intermediate_sets / multi_open / multi_prepare "
-                   "(grouping specification, duplicate refusal, completeness of the opening algebra as a polynomial identity at the "
-                   "secret, non-divisibility for a wrong evaluation, uniqueness of the witness); the model is tied to the real code by "
-                   "running both on the same query sets with a known setup secret: grouping result (hook), every proof element, the "
-                   "verifier's deferred MSM term by term and the verdict, for honest and corrupted inputs",
+                   "(mirrored step by step: x1-fold of polynomials, commitments and evaluation sets, kate_division fold, "
+                   "lagrange_interpolate, f_eval fold in x2, x4-fold, as_terms of chopped commitments, the deferred dual MSM): "
+                   "grouping specification; Err(DuplicatedQuery) exactly on a repeated (reference, point) pair for "
+                   "construct_intermediate_sets, multi_open and multi_prepare, identical evaluations or not (nothing is "
+                   "deduplicated), references compared as references; completeness of the whole model for every query-set shape "
+                   "with one-piece AND chopped commitment references (multiopen_complete_refs); the algebraic core of soundness "
+                   "step by step with exact counts of exceptional challenges (a wrong claim survives the x1-fold for <= #polys-1 "
+                   "values, then no polynomial f exists for all but <= #sets-1 values of x2, a wrong f is caught at x3 for all "
+                   "but <= nMax-1+#points values, a wrong value at x4 for all but <= #sets values; pi_unique). "
+                   "The model is tied to the real code by running both on the same query sets with a known setup secret: grouping "
+                   "result (hook), every proof element, the verifier's deferred MSM term by term, the verdict, and - through an "
+                   "add-only trace hook inside multi_prepare - powers_x1, q_eval_sets, every r_eval in fold order, f_eval and v, "
+                   "for honest and corrupted inputs. The correspondence is deliberately tight on the ORDER of MSM terms and of "
+                   "the f_eval fold: a re-ordering of terms that keeps the sum would be reported although it is benign.",
+    "technique": "executable Lean model + kernel-checked theorems (Mathlib polynomials for the algebra, root counting for the "
+                 "exceptional-challenge bounds); differential run against the real multi_open / multi_prepare with a toxic-waste "
+                 "setup so that every group element is predicted through its discrete logarithm; add-only hooks for the grouping "
+                 "and for the verifier's intermediate scalars; statement-level oracles (honest accepted, forgery rejected, "
+                 "repeated pair refused with Err(DuplicatedQuery), no spurious duplicate error, no panic)",
     "trusted_base": [
         "blst group and pairing arithmetic (commit = MSM, final pairing check) is modelled on discrete logarithms: "
         "e(L,[s]_2) = e(R,[1]_2) iff s*log L = log R (non-degenerate pairing on a group of prime order)",
         "the Fiat-Shamir challenges x1..x4 are recorded from the real transcript and given to the model (hash not modelled)",
+        "the trace hook (proofs/src/poly/kzg/verif_hooks.rs, feature verif-hooks) only copies values out of multi_prepare",
     ],
     "assumptions": [
-        "binding of the commitment scheme (q-SDH) is not proved: the theorems give the algebraic core (a wrong evaluation makes the "
-        "quotient non-polynomial; the witness polynomial is unique) and the correspondence shows rejection on every corrupted input",
+        "binding of the commitment scheme (q-SDH / algebraic group model: the prover knows a polynomial behind f_com and pi) is "
+        "not proved; the soundness theorems are the four algebraic steps with their exceptional-challenge counts, stated "
+        "separately (their composition into one probability bound, and the random-oracle argument for x1..x4, are not formalised); "
+        "the correspondence shows rejection on every corrupted input that was run",
     ],
-    "level_text": "Kernel-checked Lean theorems about an executable model of the KZG multi-opening (query grouping for all query "
-                  "lists; opening algebra over any field), with the model checked against the real multi_open / multi_prepare on "
-                  "every run (exhaustive assignment patterns of <= 4 polynomials x <= 3 points, structured and random sets up to "
-                  "12 x 5, all single-element corruptions)",
-    "level_note": "Trusted: Lean kernel, harness and driver; pairing/group arithmetic modelled on discrete logarithms; "
-                  "cryptographic binding (SDH) assumed, not proved",
+    "level_text": "Kernel-checked Lean theorems about an executable model of the KZG multi-opening, mirrored step by step "
+                  "(query grouping and duplicate refusal for all query lists; completeness for every query-set shape incl. "
+                  "chopped commitments; soundness core with exact exceptional-challenge counts for x1, x2, x3, x4 over any "
+                  "field), with the model checked against the real multi_open / multi_prepare on every run: proof elements, "
+                  "deferred MSM term by term, verdicts and the verifier's intermediate scalars (q_eval_sets, r_evals, f_eval, v) "
+                  "on exhaustive assignment patterns of <= 4 polynomials x <= 3 points, structured and random sets up to 12 x 5, "
+                  "all single-element corruptions, repeated queries with identical / different evaluations on both sides",
+    "level_note": "Trusted: Lean kernel, harness, driver and the observe-only hooks; pairing/group arithmetic modelled on "
+                  "discrete logarithms; cryptographic binding (SDH/AGM) and the composition of the four soundness steps into "
+                  "one bound assumed, not proved",
     "timeout": {"quick": 900, "thorough": 3000, "search": 900},
 }
